@@ -1,6 +1,6 @@
 CONSTANTS
   Menu <- MenuDef
-  Hays <- HaysDef
+  Hays <- HaysQuick
   MaxAutos = 2
   MaxIters = 2
   MaxActs = 5
